@@ -130,6 +130,7 @@ CHAIN_SOURCES = [
     # sources that are legitimately exactly 0 on quiet openings
     ("ROC", {}, ""), ("MACD", {}, ".histogram"), ("TR", {}, ""), ("OBV", {}, ""), ("TSI", {}, ""),
 ]
+BOOL_SOURCES = [("STDEVTHRES", {}, "")]
 
 
 def fam_chain(rng, pid, count, targets=("SMA", "EMA", "RMA", "WMA", "HMA"), reverse=False, twins=("batch",)):
@@ -137,9 +138,14 @@ def fam_chain(rng, pid, count, targets=("SMA", "EMA", "RMA", "WMA", "HMA"), reve
     out = []
     for t in range(count):
         skind, _, fld = rng.choice(CHAIN_SOURCES)
+        tkind = targets[t % len(targets)]
+        if tkind == "Counter":
+            skind, _, fld = rng.choice(BOOL_SOURCES)
         src = rand_cfg(rng, skind)
         live = src.build(standalone=False).name
-        tgt = rand_cfg(rng, targets[t % len(targets)], inp=live + fld, rv=rng.choice([4, 4, 2, 5]))
+        tgt = rand_cfg(rng, tkind, inp=live + fld, rv=rng.choice([4, 4, 2, 5]))
+        if tkind == "Counter":
+            tgt = IndCfg("Counter", inp=live, count_value=rng.choice([True, False]))
         tgt.extra = {"name_suffix": "late"}   # keep clear of the source's default-named helpers (C13's topic)
         sc = hex_scenario(rng, f"{pid}/chain{'R' if reverse else ''}/{skind}>{tgt.kind}/{t}", "chain",
                           [tgt, src] if reverse else [src, tgt],
@@ -167,7 +173,8 @@ def fam_manager(rng, pid, count, fills=(False,), has=(False,), lifes=(None,), he
     out = []
     for t in range(count):
         unit = units[t % len(units)]
-        n_ = rng.choice([1, 1, 2, 3, 5, 7, 10, 15, 30, 45]) if unit in "ST" else rng.choice([1, 1, 2, 3, 4, 6])
+        n_ = (rng.choice([1, 1, 2, 3, 5, 7, 10, 15, 30, 45, 90, 120]) if unit in "ST"
+              else rng.choice([1, 1, 2, 3, 4, 6, 24] if unit == "H" else [1, 1, 2, 3, 4, 6, 7]))
         tf = f"{unit}{n_}" if (rng.random() < 0.92 and unit != "N") else None
         fill = rng.choice(fills) and bool(tf)
         ha = rng.choice(has)
@@ -310,7 +317,7 @@ def _scenarios(pid, tier, rng):
                 + fam_chain(rng, pid, k(80, 500)))
     if pid == "C05":
         return (fam_kinds(rng, pid, sorted(C05_KINDS), k(200, 1300), tf_share=0.25)
-                + fam_chain(rng, pid, k(50, 300), targets=("STDEV", "BBANDS", "KC", "STDEVTHRES", "STDEV", "BBANDS")))
+                + fam_chain(rng, pid, k(50, 300), targets=("STDEV", "BBANDS", "KC", "STDEVTHRES", "Counter", "STDEV", "BBANDS")))
     if pid == "C06":
         return (fam_kinds(rng, pid, sorted(C06_KINDS), k(200, 1300), tf_share=0.25)
                 + fam_chain(rng, pid, k(50, 300), targets=("RSI", "MACD", "ROC", "STOCH", "TSI")))
@@ -446,6 +453,8 @@ def grow_program(rng, sc, n, steps, ops, pre=None):
                         if rng.random() < 0.5:
                             idx -= L
                         step = ("calculate_index", tgt, idx)
+                        if hexobj and rng.random() < 0.25:
+                            step = ("calculate_index", tgt, -1, "default")
         elif op == "add" and hexobj and late_left:
             i = late_left.pop(0)
             step = ("add", i, rng.choice(["obj", "dict", "settings"]))
@@ -453,6 +462,10 @@ def grow_program(rng, sc, n, steps, ops, pre=None):
         elif op == "remove" and hexobj and len(sh.active) > 1:
             tgt = rng.choice(names)
             step = ("remove", tgt)
+            if rng.random() < 0.15:
+                step = ("remove", "NOT_REGISTERED_9")       # removing an unknown name changes nothing
+        elif op == "append" and rng.random() < 0.5:
+            step = ("append", pos + 1, pos)                  # an empty chunk
         if step:
             prog.append(step)
             ok = shadow(step)
